@@ -328,9 +328,13 @@ class ElfWriter:
                 entry.st_value = symbol.value
             elif symbol.defined:
                 entry.st_shndx = self.section_numbers[symbol.section]
-                entry.st_value = (
-                    symbol.value + self.obj.get_section(symbol.section).address
-                )
+                if self.e_type == ET_REL:
+                    # Relocatable file: offset from the start of the section
+                    entry.st_value = symbol.value
+                else:
+                    # Executable: virtual address
+                    section = self.obj.get_section(symbol.section)
+                    entry.st_value = symbol.value + section.address
             else:
                 entry.st_shndx = 0
                 entry.st_value = 0
